@@ -94,7 +94,7 @@ pub fn record_component(component: &RecordComponent) -> RecordComponentView<'_> 
 	}
 }
 
-/// Events emitted by the class writer while the monitors record (see [`start_recording`]).
+/// Events emitted by the class writer and the class reader while the monitors record (see [`start_recording`]).
 #[derive(Debug, Clone, PartialEq)]
 pub enum Event {
 	/// End of one attempt of writing a `Code` attribute's bytecode.
@@ -105,6 +105,12 @@ pub enum Event {
 		wide: usize,
 		/// Whether another attempt follows.
 		retry: bool,
+	},
+	/// The class reader starts to look at the instruction at bytecode offset `pos`: in its first pass over a method body
+	/// (the one that creates the labels, `pass` = 1) or in its second one (the one that decodes the instructions, `pass` = 2).
+	InstructionStart {
+		pass: u8,
+		pos: u16,
 	},
 	/// The constant pool as it is written out.
 	Pool {
